@@ -101,6 +101,21 @@ def generated_c_field_names(repo: str) -> typing.Tuple[typing.List[str], typing.
     return sorted(suf), sorted(pre)
 
 
+def generated_cpp_members(repo: str) -> typing.List[str]:
+    """names the C++ templates THEMSELVES declare inside the generated class: type aliases (`using X =`), nested classes, static constexpr
+    members and member functions of _composite_type.j2 / _fields*.j2 / the type templates (literal names only)"""
+    d = os.path.join(repo, 'src', 'nunavut', 'lang', 'cpp', 'templates')
+    names = set()
+    for f in sorted(os.listdir(d)):
+        if not f.endswith('.j2') or f in ('serialization.j2', 'deserialization.j2', 'base.j2'):
+            continue
+        t = re.sub(r'\{#.*?#\}', '', open(os.path.join(d, f), encoding='utf-8').read(), flags=re.S)
+        for rx in (r'\busing\s+([A-Za-z_]\w*)\s*=', r'\b(?:struct|class)\s+([A-Za-z_]\w*)\b(?!\s*\{\{)',
+                   r'static\s+constexpr[^;=\n{}]*?\b([A-Za-z_]\w*)\s*=', r'\b([A-Za-z_]\w*)\s*\([^;{}]*\)\s*(?:const\s*)?(?:noexcept\s*)?\{'):
+            names.update(re.findall(rx, t))
+    return sorted(n for n in names if n not in ('_if', 'if', 'for', 'while', 'switch', 'final', 'const'))
+
+
 PY_SUPPORT_ROOTS = ['nunavut_support', 'numpy', 'pydsdl']      # a Python ROOT package of that name shadows what the generated modules import
 
 
@@ -128,7 +143,7 @@ def pools(repo: str) -> typing.Dict[str, typing.List[str]]:
     coq = iso_keywords_from_coq(os.path.dirname(os.path.dirname(os.path.dirname(os.path.abspath(__file__)))))
     out['iso_keywords'] = sorted({w for w in list(ISO_C11_KEYWORDS) + list(ISO_CPP20_KEYWORDS) + [w for k in coq for w in coq[k]]
                                   if dsdl_ok(w)})
-    out['generated'] = [w for w in generated_c_names(repo) if dsdl_ok(w)]
+    out['generated'] = [w for w in generated_c_names(repo) + generated_cpp_members(repo) if dsdl_ok(w)]
     out['pattern'] = [w for w in PATTERN_NAMES + PY_SUPPORT_ROOTS if dsdl_ok(w)]
     out['plain'] = list(PLAIN)
     return out
@@ -405,7 +420,7 @@ def corpus() -> typing.List[dict]:
     return cases
 
 
-def witness_corpus() -> typing.List[dict]:
+def witness_corpus(repo: str = os.environ.get('VERIF_REPO', '/repo')) -> typing.List[dict]:
     """minimised witnesses of failure classes met while sweeping seeds (beyond the probed witnesses of known_findings.d/C06.json): they are
     part of every run; each must be recognised by the trigger of its class (a listed finding or the stropping-fold exclusion)"""
     def one(root, files, lookup=None):
@@ -436,6 +451,14 @@ def witness_corpus() -> typing.List[dict]:
         # F-C06-C-GENERATED-NAME: constants / fields named like macros and functions the C templates generate for the same type
         one('gnm', {'C.1.0.dsdl': 'uint8 EXTENT_BYTES_ = 3\nuint8[<=3] a\nuint8 a_ARRAY_CAPACITY_ = 1\n@sealed\n', 'D.1.0.dsdl': 'uint8 serialize_ = 3\n@sealed\n',
                     'U.1.0.dsdl': '@union\nuint8 a\nuint16 is_a_\nuint8 UNION_OPTION_COUNT_ = 9\n@sealed\n'}),
+        # F-C06-CPP-MEMBER-CLASH: fields / union options / constants named like members the C++ templates declare in the same class
+        #  (names derived from the templates at run time; struct, union, constants, and a service with a union request)
+        (lambda gm: one('gmc', {
+            'S.1.0.dsdl': ''.join('uint8 %s\n' % n for n in gm) + 'uint64[<=8] arr\n@sealed\n',
+            'U.1.0.dsdl': '@union\n' + ''.join('int32 %s\n' % n for n in gm) + 'uint64[<=8] arr\n@sealed\n',
+            'K.1.0.dsdl': ''.join('uint8 %s = 1\n' % n for n in gm) + 'uint8 x\n@sealed\n',
+            'V.1.1.dsdl': '@union\nint32 allocator_type\nuint64[<=8] arr\n@sealed\n---\n@sealed\n'}))(
+            [n for n in generated_cpp_members(repo) if dsdl_ok(n)]),
         # F-C06-PY-MODULE-SHADOW, support/third-party names as ROOT
         one('nunavut_support', {'T.1.0.dsdl': 'uint8 a\n@sealed\n'}),
         one('numpy', {'T.1.0.dsdl': 'uint8 a\n@sealed\n'}),
